@@ -330,8 +330,14 @@ func (c *converter) addIngressOfChangedClasses() {
 		ingAdd = append(ingAdd, ing)
 	}
 	for _, ing := range ingList {
-		if hasChangedClass(ing) && !added[ing.Namespace+"/"+ing.Name] {
+		if name := ing.Namespace + "/" + ing.Name; hasChangedClass(ing) && !added[name] {
 			ingAdd = append(ingAdd, ing)
+			// an added ingress is also a changed one, so whatever it starts
+			// to reference (see trackAddedIngress) is considered dirty
+			if c.changed.Links == nil {
+				c.changed.Links = convtypes.TrackingLinks{}
+			}
+			c.changed.Links[convtypes.ResourceIngress] = append(c.changed.Links[convtypes.ResourceIngress], name)
 		}
 	}
 	c.changed.IngressesAdd = ingAdd
